@@ -48,7 +48,9 @@ like ExtractTransformation does) and ExtractTransformation(extract_internals, ou
 {(F,T),(T,F),(T,T)}, each at module level (apply to the Module) and at file level (apply to the Sourcefile
 holding a free-standing kernel).  Region and module-structure blocks are combined under the outlining entry
 points, internal-procedure and module-structure blocks under the extraction entry points; under (T,T) every
-single block and every pair (region block, internal-procedure block) is generated.
+single block and every pair (region block, internal-procedure block) is generated.  The two direct entry points
+are run on the base kernel and on every single block; pairs of blocks go through ExtractTransformation only (its
+transform_module / transform_file do nothing but call the two functions per routine and append the result).
 
 Oracle: (1) transformed sources build with gfortran -O0 -fcheck=bounds and print exactly the original
 output on every input of the grid (3 sizes x values chosen so that both branches of every condition are
@@ -398,6 +400,8 @@ def make_cases(d):
                     passback = []
                 driver = DRIVER % dict(usek='  use kmod, only: kern' if level == 'module' else '')
                 for xf, opts in variants:
+                    if xf != 'trafo' and len(switches) > 1:
+                        continue    # direct calls are what ExtractTransformation does per routine: pairs only through the class
                     o = dict(opts, level=level)
                     oid = ','.join(f'{k}={v}' for k, v in sorted(o.items()))
                     cases.append(dict(
